@@ -10,21 +10,22 @@ Definition is_publish (p : packet) : bool := match p with Publish _ _ _ => true 
 Definition npub (ps : list packet) : nat := length (filter is_publish ps).
 
 (* c16_resume_fits: at every resume (the processor's listing of the outgoing store after
-   CONNACK) the store holds at most W PUBLISH packets, W the window the connection was
-   set up with *)
+   CONNACK) the store holds at most W packets (PUBLISH or PUBREL: each is an
+   unacknowledged QoS>0 message), W the window the connection was set up with *)
 Definition rf_step (w : N) (e : event) : option N :=
   match e with
   | ENewConn => Some 0
   | ESetup _ (SOk _ _ w' _ _) => Some w'
-  | EAll _ Outgoing (Some ps) => if N.of_nat (npub ps) <=? w then Some w else None
+  | EAll _ Outgoing (Some ps) => if N.of_nat (length ps) <=? w then Some w else None
   | _ => Some w
   end.
 Definition c16_resume_fits (es : list event) : bool := scan rf_step 0 es.
 
-(* c16_peer_ok: the window of a connection that continues a session is not smaller than
-   the window of the previous connection that was set up, and the peer sends PUBACK /
-   PUBCOMP / PUBREC only for ids that are in the outgoing store (saved and not deleted:
-   sent, or about to be sent, and not yet acknowledged) *)
+(* c16_window_const: the window of a connection that continues a session (Setup not
+   fresh) is not smaller than the window of the previous connection that was set up;
+   and NextID never hands out an id that is still in the outgoing store (it would need
+   65535 allocations while one message stays unacknowledged).  [pk_ids] are the ids in
+   the outgoing store, read off the trace: saved and not deleted. *)
 Record pk_st := PkSt { pk_last : N; pk_ids : list N }.
 Definition pk_step (v : pk_st) (e : event) : option pk_st :=
   match e with
@@ -36,10 +37,10 @@ Definition pk_step (v : pk_st) (e : event) : option pk_st :=
       | None => Some v
       end
   | EDelete _ Outgoing id true => Some (PkSt (pk_last v) (filter (fun j => negb (j =? id)) (pk_ids v)))
-  | ERx _ (Puback id) | ERx _ (Pubcomp id) | ERx _ (Pubrec id) => if nmem id (pk_ids v) then Some v else None
+  | ENextId _ id => if nmem id (pk_ids v) then None else Some v
   | _ => Some v
   end.
-Definition c16_peer_ok (es : list event) : bool := scan pk_step (PkSt 0 []) es.
+Definition c16_window_const (es : list event) : bool := scan pk_step (PkSt 0 []) es.
 
 (* the scanner state reached after a trace *)
 Fixpoint srun {S : Type} (f : S -> event -> option S) (t : S) (es : list event) : option S :=
